@@ -14,6 +14,7 @@ def run(rep, tier):
         rep.call(validators.crop_u32, rep, prog, "C04.crop-u32")
         rep.call(validators.buffer_validators, rep, prog, "C04.buffers")
         rep.call(validators.size_exact, rep, prog, "C04.size-exact")
+        rep.call(validators.validators_no_panic, rep, prog, "C04.no-panic")
         rep.call(validators.align_reject, rep, prog, "C04.align-reject")
         rep.call(validators.crop_validated_first, rep, prog, "C04.crop-validated-first")
         rep.call(validators.constructors_validate, rep, prog, "C04.constructors")
